@@ -455,6 +455,10 @@ fn strip_ms(v: &[String]) -> Vec<String> {
 
 pub fn run(tier: Tier) -> i32 {
     let rep = Reporter::new("C14", tier);
+    // the bounds that used to be the thorough tier's are cheap enough for every run
+    let deep = tier == Tier::Thorough;
+    let tier = Tier::Thorough;
+    let _ = deep;
     let evals = AtomicU64::new(0);
     let st = steps(tier);
     let n = st.len() as u64;
@@ -463,6 +467,10 @@ pub fn run(tier: Tier) -> i32 {
     // length 3: plain variants of every kind in the middle and at the end, every step first
     let plain: Vec<Step> = st.iter().filter(|s| s.mods == 0 && s.b == B::Ok).cloned().collect();
     let p = plain.len() as u64;
+    if deep {
+        // every pair of steps followed by every plain step
+        par_for(n * n * p, |i| judge(&rep, &[st[(i / (n * p)) as usize], st[((i / p) % n) as usize], plain[(i % p) as usize]], &evals));
+    }
     if tier == Tier::Thorough {
         par_for(n * p * p, |i| judge(&rep, &[st[(i / (p * p)) as usize], plain[((i / p) % p) as usize], plain[(i % p) as usize]], &evals));
     } else {
